@@ -337,6 +337,20 @@ pub fn cases(seed: u64, tier: Tier) -> Cases {
             .and_then(|r| r);
             cs.push("any", format!("any {}", v), show(r.clone()), !safe(v) || v.abs() > 1 << 32, format!("Any::new({}).deserialize_into::<SafeLong>()", v));
             check_int(&mut cs, "any", v, &r);
+            // … and as the key of a map that is made into an `Any` in the program (its keys are integers there, not
+            // the strings a parsed document has) and viewed as a map with safelong keys (same verdict: same model line)
+            if let Ok(n) = i64::try_from(v) {
+                let r = guarded(move || {
+                    let mut m = BTreeMap::new();
+                    m.insert(n, true);
+                    let any = Any::new(&m).map_err(|e| e.to_string())?;
+                    let back = any.deserialize_into::<BTreeMap<SafeLong, bool>>().map_err(|e| e.to_string())?;
+                    back.keys().next().copied().ok_or_else(|| "empty".to_string())
+                })
+                .and_then(|r| r);
+                cs.push("any-map-key", format!("any {}", v), show(r.clone()), !safe(v) || v.abs() > 1 << 32, format!("Any::new(map {{{}: true}}).deserialize_into::<BTreeMap<SafeLong, bool>>()", v));
+                check_int(&mut cs, "any-map-key", v, &r);
+            }
         }
         // canonical decimal text and variations of it
         let t = v.to_string();
